@@ -308,10 +308,12 @@ impl GenerationPass for AvailableValuePass {
 
                 rule_expand_address_for_load(&node.node(), &mut out_reg_n, &node.reg_values_in());
                 rule_value_from_stack(&node.node(), &mut out_reg_n, &node.memory_values_in());
+                // (from what is known in front of the load: the out values of the
+                // node are those of the previous sweep)
                 rule_pull_value_from_csr_memory(
                     &node.node(),
                     &mut out_reg_n,
-                    &node.memory_values_out(),
+                    &node.memory_values_in(),
                 );
                 rule_zero_to_const(
                     &mut out_reg_n,
